@@ -41,11 +41,11 @@ for try in 1 2 3; do
 done
 cp "$DEMO" "$dir/zz_seed_demo_test.go"
 runre=$(grep -o 'func Test[A-Za-z0-9_]*' "$DEMO" | sed 's/func //' | paste -sd'|')
-if go test -vet=off -count=1 -run "^($runre)\$" ./$dir >"$WT/.demo_with.log" 2>&1; then with=pass; else with=fail; fi
+if go test ${DEMO_RACE:+-race} -vet=off -count=1 -run "^($runre)\$" ./$dir >"$WT/.demo_with.log" 2>&1; then with=pass; else with=fail; fi
 rm "$dir/zz_seed_demo_test.go"
 git checkout -q -- .
 cp "$DEMO" "$dir/zz_seed_demo_test.go"
-if go test -vet=off -count=1 -run "^($runre)\$" ./$dir >"$WT/.demo_without.log" 2>&1; then without=pass; else without=fail; fi
+if go test ${DEMO_RACE:+-race} -vet=off -count=1 -run "^($runre)\$" ./$dir >"$WT/.demo_without.log" 2>&1; then without=pass; else without=fail; fi
 rm "$dir/zz_seed_demo_test.go"
 echo "$ID-$K RESULT suite_with_patch=$suite demo_with_patch=$with demo_without_patch=$without dir=$dir tests=$runre"
 if [ "$without" = fail ]; then tail -15 "$WT/.demo_without.log"; fi
